@@ -173,6 +173,14 @@ class SymByteArray:
         self.extend(x)
         return self
 
+    def clear(self):
+        del self.segs[:]
+
+    def copy(self):
+        r = SymByteArray()
+        r.segs = list(self.segs)
+        return r
+
     def length(self):
         return SymBytes(self.segs).length()
 
